@@ -12,7 +12,7 @@ for pid in sys.argv[2:]:
             pass
     files = p['anchors'].get('files', []) if isinstance(p['anchors'], dict) else p['anchors']
     hint = ", ".join(files)
-    ways = "the property as stated in the file stops holding for some particular input / option / history"
+    ways = "the property as stated in the file stops holding for some particular input / option / history; prefer a change that needs something specific to manifest: a multi-step sequence of operations, a reused object, two cooperating sites that each look fine alone, a particular option combination, or an unusual-but-valid input"
     txt = subprocess.run(['python3', '/tmp/agent_prompt.py', pid, hint, " ;; ".join(avoid) or "(none)", ways], capture_output=True, text=True).stdout
     txt = txt.replace(f"{pid}-n1", f"{pid}-{suffix}").replace(f"/tmp/wt/n-{pid}", f"/tmp/wt/{suffix}-{pid}")
     open(f'/tmp/ap_{pid}_{suffix}.txt', 'w').write(txt)
